@@ -131,11 +131,53 @@ def scenarios():
     return scns
 
 
+def identity_and_chain_scenarios():
+    """(a) the builtins compare terms, not objects: the same goals before and after clear() (which renews the
+    atom table but not the engine's empty-list object), with atoms built by the consumer and atoms of loaded code;
+    (b) a predicate spread over two scripts loaded without overwrite whose earlier definition ends in a cut that
+    is reached, called directly, through call/N, findall and once"""
+    from ..terms import A, I, V, C, NIL, lst, clause, call, and_, conj, CUT
+    X, Y = V(0), V(1)
+    script = {"nil/1": [clause(C("nil", NIL))], "qnil/1": [clause(C("qnil", A("[]")))], "e/2": [clause(C("e", X, Y), call(C("=", X, Y)))],
+              "ne/2": [clause(C("ne", X, Y), call(C("\\=", X, Y)))], "a/1": [clause(C("a", A("x")))],
+              "t/1": [clause(C("t", I(1)), conj(call(C("nil", X)), call(C("qnil", X)))), clause(C("t", I(2)), conj(call(C("nil", X)), call(C("qnil", Y)), call(C("\\=", X, Y)))),
+                      clause(C("t", I(3)), call(C("\\=", NIL, A("[]")))), clause(C("t", I(4)), call(C("findall", X, C("a", A("none")), NIL))),
+                      clause(C("t", I(5)), conj(call(C("findall", X, C("a", A("none")), Y)), call(C("\\=", Y, A("[]")))))]}
+    probes = [(C("t", V(0)), 1), (C("\\=", NIL, NIL), 0), (C("=", NIL, NIL), 0), (C("ne", NIL, A("[]")), 0), (C("e", lst([A("x")]), lst([V(0)])), 1),
+              (C("\\=", A("x"), A("x")), 0), (C("a", A("x")), 0), (C("ne", A("x"), A("x")), 0), (C("findall", V(0), C("a", V(0)), lst([A("x")])), 1)]
+    steps = [[{"op": "load", "e": 1, "script": "P", "ow": True}]]
+    r = 0
+    for rounds in range(3):
+        for g, q in probes:
+            r += 1
+            steps.append([{"op": "solve", "e": 1, "r": r, "goal": g, "qnv": q, "k": 0}])
+        steps.append([{"op": "clear", "e": 1}])
+        steps.append([{"op": "load", "e": 1, "script": "P", "ow": True}])
+    scns = [{"scripts": {"P": script}, "steps": steps, "keys": []}]
+    s1 = {"colour/1": [clause(C("colour", A("red")), CUT), clause(C("colour", A("unreached")))], "sh/1": [clause(C("sh", X), call(C("colour", X)))]}
+    s2 = {"colour/1": [clause(C("colour", A("green"))), clause(C("colour", A("blue")))]}
+    s3 = {"colour/1": [clause(C("colour", A("last")), CUT)]}
+    goals = [(C("colour", V(0)), 1), (C("call", A("colour"), V(0)), 1), (C("findall", V(0), C("colour", V(0)), V(1)), 2), (C("once", C("colour", V(0))), 1), (C("sh", V(0)), 1),
+             (C("findall", V(0), C("call", A("colour"), V(0)), V(1)), 2), (C("call", C("call", A("colour")), V(0)), 1)]
+    steps = [[{"op": "load", "e": 1, "script": "S1", "ow": True}], [{"op": "load", "e": 1, "script": "S2", "ow": False}]]
+    r = 0
+    for g, q in goals:
+        r += 1
+        steps.append([{"op": "solve", "e": 1, "r": r, "goal": g, "qnv": q, "k": 0}])
+    steps.append([{"op": "load", "e": 1, "script": "S3", "ow": False}])
+    for g, q in goals:
+        r += 1
+        steps.append([{"op": "solve", "e": 1, "r": r, "goal": g, "qnv": q, "k": 0}])
+    scns.append({"scripts": {"S1": s1, "S2": s2, "S3": s3}, "steps": steps, "keys": []})
+    return scns
+
+
 def run(tier, seed):
     chk = Check("C09", tier, seed)
     rnd = random.Random(seed)
     scns = scenarios()
     chk.machine_family("builtins-enumerated", scns, features=features)
+    chk.machine_family("identity-after-clear-and-chained-definitions-with-cuts", identity_and_chain_scenarios(), {"must_complete": True}, features=features)
     n = 800 if tier == "quick" else 10000
     rs = [gen.random_scenario(rnd, {"meta", "ctl", "dyn", "rich"}, nclauses=3, depth=rnd.choice([2, 3])) for _ in range(n)]
     for i in range(0, n, 4000):
